@@ -258,6 +258,174 @@ func c14Shipped(rel string) string {
 	return "parse=ok " + res.status
 }
 
+// ---- several generations from ONE parsed schema object, in this process -----------------------------------
+//
+// The tlgen binary parses, generates once and exits: whatever a generation leaves behind in the parsed
+// schema (or in the generator) dies with the process. A program that uses tlparser + gen as libraries
+// generates again from the same *tlparser.Schema. c14.regen parses ONCE, then generates from that same
+// object: generator A; generator B; generator B once more (the same Generator object, over its own
+// output); generator C — each into a fresh directory — and finally from a fresh parse of the same text.
+// Demanded: every generation succeeds if the first did, all outputs are byte-identical to the first, and
+// the parsed schema object (every slice up to its capacity, the comment map) is what it was before.
+
+// c14DeepDump renders everything reachable from the schema, slices up to their capacity.
+func c14DeepDump(s *tlparser.Schema) string {
+	var b strings.Builder
+	ps := func(p []tlparser.Parameter) {
+		fmt.Fprintf(&b, "[%d/%d", len(p), cap(p))
+		for _, x := range p[:cap(p)] {
+			fmt.Fprintf(&b, " %#v", x)
+		}
+		b.WriteString("]")
+	}
+	fmt.Fprintf(&b, "objects %d/%d\n", len(s.Objects), cap(s.Objects))
+	for _, o := range s.Objects[:cap(s.Objects)] {
+		fmt.Fprintf(&b, "o %q %q %d %q ", o.Name, o.Comment, o.CRC, o.Interface)
+		ps(o.Parameters)
+		b.WriteString("\n")
+	}
+	fmt.Fprintf(&b, "methods %d/%d\n", len(s.Methods), cap(s.Methods))
+	for _, m := range s.Methods[:cap(s.Methods)] {
+		fmt.Fprintf(&b, "m %q %q %d %#v ", m.Name, m.Comment, m.CRC, m.Response)
+		ps(m.Parameters)
+		b.WriteString("\n")
+	}
+	var keys []string
+	for k := range s.TypeComments {
+		keys = append(keys, k)
+	}
+	sort.Strings(keys)
+	fmt.Fprintf(&b, "typecomments nil=%v\n", s.TypeComments == nil)
+	for _, k := range keys {
+		fmt.Fprintf(&b, "t %q %q\n", k, s.TypeComments[k])
+	}
+	return b.String()
+}
+
+// c14FirstDiffLine: the first line in which two dumps differ (for the run's notes).
+func c14FirstDiffLine(a, b string) string {
+	al, bl := strings.Split(a, "\n"), strings.Split(b, "\n")
+	for i := 0; i < len(al) || i < len(bl); i++ {
+		x, y := "<none>", "<none>"
+		if i < len(al) {
+			x = al[i]
+		}
+		if i < len(bl) {
+			y = bl[i]
+		}
+		if x != y {
+			return "before: " + x + " | after: " + y
+		}
+	}
+	return ""
+}
+
+// c14GenInProcess: one Generate() of generator g (made from s into dir when g == nil); "ok", "err", "panic".
+func c14GenInProcess(s *tlparser.Schema, g **gen.Generator, dir string) (status string) {
+	defer func() {
+		if r := recover(); r != nil {
+			status = "panic"
+			c14Note("regen_panic", fmt.Sprint(r))
+		}
+	}()
+	if *g == nil {
+		_ = os.MkdirAll(dir, 0o755)
+		ng, err := gen.NewGenerator(s, "", dir)
+		if err != nil {
+			c14Note("regen_error", err.Error())
+			return "err"
+		}
+		*g = ng
+	}
+	if err := (*g).Generate(); err != nil {
+		c14Note("regen_error", err.Error())
+		return "err"
+	}
+	return "ok"
+}
+
+func c14ReadGen(dir string) map[string][]byte {
+	m := map[string][]byte{}
+	for _, n := range c14GenFiles {
+		if b, err := os.ReadFile(filepath.Join(dir, n)); err == nil {
+			m[n] = b
+		}
+	}
+	return m
+}
+
+func c14SameGen(a, b map[string][]byte) bool {
+	if len(a) != len(c14GenFiles) || len(b) != len(c14GenFiles) {
+		return false
+	}
+	for _, n := range c14GenFiles {
+		if !bytes.Equal(a[n], b[n]) {
+			return false
+		}
+	}
+	return true
+}
+
+const c14RegenOK = "gens=ok,ok,ok,ok same=1 schema=unchanged fresh=1"
+
+// c14Regen: text is the schema text, or "@<path relative to the repository>".
+func c14Regen(text string) string {
+	if strings.HasPrefix(text, "@") {
+		b, err := os.ReadFile(filepath.Join(c14Root, filepath.FromSlash(text[1:])))
+		if err != nil {
+			return "regen=unreadable"
+		}
+		text = string(b)
+	}
+	r, timedOut := c14RunParser(text)
+	if timedOut || r.panic != "" || r.err != nil || r.s == nil {
+		return "regen=unparsed"
+	}
+	s := r.s
+	before := c14DeepDump(s)
+	c14Seq++
+	work := filepath.Join(c14Scratch, fmt.Sprintf("r%d", c14Seq))
+	defer os.RemoveAll(work)
+	var gA, gB, gC, gF *gen.Generator
+	type run struct {
+		g   **gen.Generator
+		dir string
+	}
+	runs := []run{{&gA, "a"}, {&gB, "b"}, {&gB, "b"}, {&gC, "c"}}
+	var st []string
+	var first map[string][]byte
+	same := "1"
+	for i, ru := range runs {
+		dir := filepath.Join(work, ru.dir)
+		status := c14GenInProcess(s, ru.g, dir)
+		st = append(st, status)
+		if i == 0 {
+			if status != "ok" {
+				return "gens=fail" // the schema is not one the generator accepts at all: nothing to repeat
+			}
+			first = c14ReadGen(dir)
+			continue
+		}
+		if status != "ok" || !c14SameGen(first, c14ReadGen(dir)) {
+			same = "0"
+			c14Note("regen_generation_differs", fmt.Sprintf("generation %d of %d from the same parsed schema: %s", i+1, len(runs), status))
+		}
+	}
+	schema := "unchanged"
+	if after := c14DeepDump(s); after != before {
+		schema = "changed"
+		c14Note("regen_schema_changed", c14FirstDiffLine(before, after))
+	}
+	fresh := "0"
+	if r2, t2 := c14RunParser(text); !t2 && r2.err == nil && r2.panic == "" && r2.s != nil {
+		dir := filepath.Join(work, "f")
+		if c14GenInProcess(r2.s, &gF, dir) == "ok" && c14SameGen(first, c14ReadGen(dir)) {
+			fresh = "1"
+		}
+	}
+	return fmt.Sprintf("gens=%s same=%s schema=%s fresh=%s", strings.Join(st, ","), same, schema, fresh)
+}
+
 // ---- reading the generated declarations back (go/ast) -------------------------------------------------------
 
 type c14Struct struct {
